@@ -6,6 +6,7 @@ import (
 	"encoding/json"
 	"fmt"
 	"os"
+	"regexp"
 	"sync/atomic"
 	"syscall"
 	"time"
@@ -99,6 +100,8 @@ func checkSlowSrc(c *Case, cov *Cov) []*Violation {
 	return vs
 }
 
+var reSlowFrame = regexp.MustCompile(`\(0x[^\n]*\)\r?\n[ \t]+/r/src/p/q\.go:`)
+
 func postC06Slow(seed uint64, tier string, cov *Cov) ([]*Violation, map[string]any, error) {
 	delays := []int{300, 2500}
 	if tier == "thorough" {
@@ -113,7 +116,15 @@ func postC06Slow(seed uint64, tier string, cov *Cov) ([]*Violation, map[string]a
 	for i, d := range delays {
 		r := core.NewRng(core.Mix(seed, "C06/slowsrc", uint64(i)))
 		sx := &C06SlowExtra{Dir: fmt.Sprintf("%s/verif-c06/%d/slow%d", base, seed, i), DelayMS: d, Analyze: true}
-		doc := gen.GenerateSimilar(r, gen.SimilarCfg{Groups: r.Range(1, 3), MaxPerGrp: []int{1, 2, 4}[r.Intn(3)], Files: []string{"/r/src/p/q.go", "/r/src/p/q.go", "/remote/goroot/src/runtime/proc.go", "/r/src/m/n.go"}})
+		// a dump with at least one frame that has arguments and lies in the slow
+		// file (only such frames make the library read it)
+		var doc *gen.Doc
+		for try := 0; try < 50; try++ {
+			doc = gen.GenerateSimilar(r, gen.SimilarCfg{Groups: r.Range(1, 3), MaxPerGrp: []int{1, 2, 4}[r.Intn(3)], Files: []string{"/r/src/p/q.go", "/r/src/p/q.go", "/remote/goroot/src/runtime/proc.go", "/r/src/m/n.go"}})
+			if reSlowFrame.Match(gen.Render(doc).Bytes) {
+				break
+			}
+		}
 		exj, _ := json.Marshal(sx)
 		c := &Case{Prop: "C06", Run: uint64(i), Seed: seed, Mode: "slowsrc", Doc: doc, NameArgs: true, Extra: exj}
 		for _, v := range checkSlowSrc(c, cov) {
